@@ -617,15 +617,24 @@ func (dr *Driver) roundTrip(st *svcState, ex *Exchange, req *http.Request) (*htt
 }
 
 // Run executes one case and returns its record.
-func (dr *Driver) Run(c *Case) *Exchange {
+func (dr *Driver) Run(c *Case) *Exchange { return dr.runWith(c, true, nil) }
+
+// runWith executes one case. useGlobal publishes the exchange as the process-wide current exchange
+// (sequential driving only); the exchange always travels in the client and server contexts.
+func (dr *Driver) runWith(c *Case, useGlobal bool, onStart func(*Exchange)) *Exchange {
 	ex := &Exchange{Design: dr.DesignID, Case: c}
 	st := dr.svcs[c.Svc]
 	if st == nil || st.client.Kind() == reflect.Invalid {
 		ex.BuildErr = "service not mounted: " + dr.SetupErr[c.Svc]
 		return ex
 	}
-	dr.current.Store(ex)
-	defer dr.current.Store(nil)
+	if useGlobal {
+		dr.current.Store(ex)
+		defer dr.current.Store(nil)
+	}
+	if onStart != nil {
+		onStart(ex)
+	}
 	ctx := context.WithValue(context.Background(), exKey, ex)
 	func() {
 		defer func() {
